@@ -8,6 +8,10 @@ SPEC = {
     ],
     "engines": [
         {"name": "cluster", "pkg": "./cluster", "timeout_quick": 90, "search_cases": 8000},
+        # "each notification owed per C01/C04/C05" is the single-instance engine (a flush period that grows with the
+        # cluster wait breaks the healthy case); the log entries travel through the gossip layer of C19
+        {"name": "sys", "pkg": "./sys", "timeout_quick": 90, "search_cases": 6000, "quick_cases": 300},
+        {"name": "gossip", "pkg": "./gossip", "search_cases": 6000, "quick_cases": 600},
     ],
     "rule": "1-3 REAL pipelines (PipelineBuilder.New incl. the real ClusterWaitStage, wait = position x 15 s, every assignment of positions) each on its own real "
             "nflog.Log, joined by a scripted gossip channel (per-link delay below / above the peer timeout, loss, late re-delivery of everything ever broadcast), "
